@@ -636,7 +636,7 @@ class SimNinja:
             cmd = mf.binding(e, "command")
             rec["cmd"] = cmd
             if f is not None:
-                rec["fault"] = {k: f[k] for k in ("kind", "n", "code", "mode") if k in f}
+                rec["fault"] = {k: f[k] for k in ("kind", "n", "code", "mode", "signal") if k in f}
             if f is not None and f["kind"] == "fail_before":
                 rec.update(status=["exit", 1], fired=True, reads=[], writes=[], wdigests={})
                 return rec
@@ -656,7 +656,7 @@ class SimNinja:
                 marker = os.path.join(os.path.dirname(self.step_log), "inner-%d.marker" % res.events)
                 env = dict(env)
                 env["PATH"] = os.path.join(os.path.dirname(os.path.abspath(__file__)), "shim_fail") + ":" + env["PATH"]
-                env["NSIM_INNER_FAULT"] = json.dumps({"code": f.get("code", 2), "mode": f.get("mode", "no_output"), "marker": marker})
+                env["NSIM_INNER_FAULT"] = json.dumps({"code": f.get("code", 2), "mode": f.get("mode", "no_output"), "signal": f.get("signal"), "marker": marker})
             watcher = None
             try:
                 watcher = inotify.Watcher(real_bdir)
